@@ -58,8 +58,8 @@ package join
 //@   requires [C03] continues-the-input-stream: gOutN + len(s) <= gInN && (forall j :: 0 <= j && j < len(s) ==> s[j] == gIn[gOutN + j])
 //@   requires [C09] cut-short-only-by-timeout-or-end: gTO <= 0 ==> (len(s) == gJS || gClosed)
 //@   requires [C09] short-slice-not-before-timeout: (len(s) < gJS && !gClosed) ==> gClock - gLastDeliv >= gTO
-//@   requires [C08] copy-shares-no-memory: !gNC ==> (!in(gOwned, s.arr) && s.arr != dsc.join.arr)
-//@   requires [C08] nothing-on-loan: gLent == 0
+//@   requires [C08 C20] copy-shares-no-memory: !gNC ==> (!in(gOwned, s.arr) && s.arr != dsc.join.arr)
+//@   requires [C08 C20] nothing-on-loan: gLent == 0
 //@   effect gOutN := gOutN + len(s)
 //@   effect gLastDeliv := gClock
 //@   effect gLent := ite(gNC, s.arr, 0)
@@ -75,13 +75,13 @@ package join
 
 // Every write into a backing array (append in place, element assignment, copy).
 //@ event heapwrite (r)
-//@   requires [C08] never-writes-a-delivered-array: !in(gOwned, r) && r != gLent
+//@   requires [C08 C20] never-writes-a-delivered-array: !in(gOwned, r) && r != gLent
 
 //@ event call time.NewTicker (d)
 //@   requires [C10] ticker-period-is-interrupt-interval: d == dsc.interruptInterval
 
 //@ pred WFJ(dsc)
-//@   [* C03 C08 C09 C10 C11] configured-options-are-used: dsc != nil && dsc.opts.JoinSize == gJS && dsc.opts.Timeout == gTO && (dsc.opts.NoCopy <==> gNC)
+//@   [* C03 C08 C20 C09 C10 C11] configured-options-are-used: dsc != nil && dsc.opts.JoinSize == gJS && dsc.opts.Timeout == gTO && (dsc.opts.NoCopy <==> gNC)
 //@   [*] dsc != nil && gJS >= 1 && gJS < two63
 //@   [*] cap(dsc.join) == gJS && len(dsc.join) <= gJS && dsc.join.arr != 0 && allocated(dsc.join.arr)
 //@   [*] dsc.interruptInterval >= 0
@@ -91,8 +91,8 @@ package join
 //@   [C03] forall j :: 0 <= j && j < len(dsc.join) ==> dsc.join[j] == gIn[gOutN + j]
 
 //@ pred OWN(dsc)
-//@   [C08] !in(gOwned, dsc.join.arr) && gLent == 0
-//@   [C08] forall r :: in(gOwned, r) ==> allocated(r)
+//@   [C08 C20] !in(gOwned, dsc.join.arr) && gLent == 0
+//@   [C08 C20] forall r :: in(gOwned, r) ==> allocated(r)
 
 //@ pred TIME(dsc)
 //@   [C09] gLastDeliv <= dsc.passAt && dsc.passAt <= gClock
@@ -116,28 +116,28 @@ package join
 
 //@ func (*Discipline).prepareItem
 //@   requires [*] WFJ(dsc)
-//@   ensures [* C03 C08] gNC ==> result == item
+//@   ensures [* C03 C08 C20] gNC ==> result == item
 //@   ensures [* C03] len(result) == len(item) && (forall j :: 0 <= j && j < len(item) ==> result[j] == item[j])
-//@   ensures [C08] (!gNC && len(item) > 0) ==> fresh(result.arr)
+//@   ensures [C08 C20] (!gNC && len(item) > 0) ==> fresh(result.arr)
 
 //@ func (*Discipline).send
 //@   requires [*] WFJ(dsc)
-//@   requires [C03 C08] len(item) >= 1
+//@   requires [C03 C08 C20] len(item) >= 1
 //@   requires [C03] len(item) <= gJS && gOutN + len(item) <= gInN
 //@   requires [C03] forall j :: 0 <= j && j < len(item) ==> item[j] == gIn[gOutN + j]
 //@   requires [C09] gTO <= 0 ==> (len(item) == gJS || gClosed)
 //@   requires [C09] (len(item) < gJS && !gClosed) ==> gClock - gLastDeliv >= gTO
-//@   requires [C08] OWN(dsc)
-//@   requires [C08] item.arr == dsc.join.arr
+//@   requires [C08 C20] OWN(dsc)
+//@   requires [C08 C20] item.arr == dsc.join.arr
 //@   modifies gOutN, gLastDeliv, gLent, gOwned, gClock
 //@   ensures [C03] gOutN == old(gOutN) + len(item)
 //@   ensures [C09] gLastDeliv <= gClock && gClock >= old(gClock)
-//@   ensures [C08] OWN(dsc)
+//@   ensures [C08 C20] OWN(dsc)
 
 //@ func (*Discipline).pass
 //@   requires [*] WFJ(dsc)
 //@   requires [C03] SEQ(dsc)
-//@   requires [C08] OWN(dsc)
+//@   requires [C08 C20] OWN(dsc)
 //@   requires [C09] TIME(dsc)
 //@   requires [C09] gTO <= 0 ==> (len(dsc.join) == 0 || len(dsc.join) == gJS || gClosed)
 //@   requires [C09] len(dsc.join) == 0 || len(dsc.join) == gJS || gClosed || gClock - dsc.passAt >= gTO
@@ -146,7 +146,7 @@ package join
 //@   ensures [*] WFJ(dsc)
 //@   ensures [* C03 C10] len(dsc.join) == 0
 //@   ensures [C03] SEQ(dsc)
-//@   ensures [C08] OWN(dsc)
+//@   ensures [C08 C20] OWN(dsc)
 //@   ensures [C09] TIME(dsc)
 
 //@ func (*Discipline).process
@@ -154,20 +154,20 @@ package join
 //@   requires [*] len(dsc.join) < gJS
 //@   requires [C03] gInN == gOutN + len(dsc.join) + 1 && item == gIn[gInN - 1] && gOutN >= 0
 //@   requires [C03] forall j :: 0 <= j && j < len(dsc.join) ==> dsc.join[j] == gIn[gOutN + j]
-//@   requires [C08] OWN(dsc)
+//@   requires [C08 C20] OWN(dsc)
 //@   requires [C09] TIME(dsc)
 //@   modifies dsc.join, elems(dsc.join), dsc.passAt, gClock, gOutN, gLastDeliv, gLent, gOwned
 //@   ensures [*] WFJ(dsc)
 //@   ensures [*] len(dsc.join) < gJS
 //@   ensures [C03] SEQ(dsc)
-//@   ensures [C08] OWN(dsc)
+//@   ensures [C08 C20] OWN(dsc)
 //@   ensures [C09] TIME(dsc)
 
 //@ pred INV(dsc)
 //@   [*] WFJ(dsc)
 //@   [*] len(dsc.join) < gJS
 //@   [C03] SEQ(dsc)
-//@   [C08] OWN(dsc)
+//@   [C08 C20] OWN(dsc)
 //@   [C09] TIME(dsc)
 
 //@ func (*Discipline).loop
@@ -204,7 +204,7 @@ package join
 //@   ensures [*] (result == nil) <==> (opts.Input != nil && opts.JoinSize != 0)
 
 //@ func Opts.normalize
-//@   ensures [* C03 C08 C09 C10 C11] options-are-kept: result.Input == opts.Input && result.JoinSize == opts.JoinSize && result.NoCopy == opts.NoCopy && result.Timeout == opts.Timeout
+//@   ensures [* C03 C08 C20 C09 C10 C11] options-are-kept: result.Input == opts.Input && result.JoinSize == opts.JoinSize && result.NoCopy == opts.NoCopy && result.Timeout == opts.Timeout
 //@   ensures [* C10] result.TimeoutInaccuracy == ite(opts.TimeoutInaccuracy == 0, 25, opts.TimeoutInaccuracy)
 
 // The ghost state of a discipline that does not exist yet is empty. JoinSize and
